@@ -73,9 +73,30 @@ class Ctx:
         self.memo_key = tag
 
 
+def _extend_printers(P):
+    """a static helper that takes the print record and is called from the printers only is part of the printer proper"""
+    changed = True
+    while changed:
+        changed = False
+        for tn in ("date-core.c", "dt-core.c"):
+            tu = P.tu(tn)
+            for h in tu.funclist:
+                if getattr(h, "body", None) is None or h.name in PRINTER_FUNCS:
+                    continue
+                if not any("strpd_s *" in (tu.types[p_["t"]].get("c") or "") or "strpdt_s *" in (tu.types[p_["t"]].get("c") or "")
+                           for p_ in h.params if p_.get("t") is not None):
+                    continue
+                callers = [g for g in tu.funclist if getattr(g, "body", None) is not None and g is not h
+                           and any(c.get("k") == "CallExpr" and c.get("callee") == h.name for c in g.walk())]
+                if callers and all(g.name in PRINTER_FUNCS for g in callers):
+                    PRINTER_FUNCS.add(h.name)
+                    changed = True
+
+
 def check(P, R, tier):
     findings = {}
     obligations = {}
+    _extend_printers(P)
 
     def run_entry(tu_name, entry_name, enum_name, rec_name, tagpath, sdprefix):
         tu = P.tu(tu_name)
@@ -333,6 +354,19 @@ def check_slot_reads(P, R):
     rule = "RF11-order"
     tu = P.tu("libdut_a-date-core.o")
     n = 0
+    # a fill-in chain that was given a name of its own: a helper whose if-chain calls the fill functions fills what they fill
+    fills = dict(FILLS)
+    for h in tu.funclist:
+        if getattr(h, "body", None) is None or h.name in fills or h.name in ("__strfd_card", "__strfd_rom"):
+            continue
+        got = set()
+        for y in h.walk():
+            if y.get("k") == "IfStmt":
+                for z in walk(y):
+                    if z.get("k") == "CallExpr" and z.get("callee") in FILLS:
+                        got |= FILLS[z["callee"]]
+        if got and len(list(h.walk())) < 120:
+            fills[h.name] = got
     for fname in ("__strfd_card", "__strfd_rom"):
         fn = tu.func(fname)
         if fn is None:
@@ -384,6 +418,10 @@ def check_slot_reads(P, R):
                     if sb is child or any(y is child for y in walk(sb)):
                         break
                     if sb.get("k") == "IfStmt" and any(y.get("k") == "CallExpr" and slot in FILLS.get(y.get("callee"), ()) for y in walk(sb)):
+                        ok = True
+                        break
+                    sb0 = strip(sb)
+                    if sb0 is not None and sb0.get("k") == "CallExpr" and sb0.get("callee") not in FILLS and slot in fills.get(sb0.get("callee"), ()):
                         ok = True
                         break
                 child, anc = anc, fn.parent(anc)
